@@ -328,7 +328,7 @@ class C18(Check):
     rule = ('every well-posed timetable of length 1..3 over durations {0, 0.5, 1, 2} (states a, b, a: a repeated state), cyclical '
             'and not, horizon 6, x registrations made before the run (none / one default / default+override) x <=K register/'
             'unregister operations (default and override actions, two objects) injected at every position (before the head event, '
-            'between instants, last of the instant) -- K=1 on the whole family, K=2 (3 thorough) on selected timetables incl. two '
+            'between instants, last of the instant) -- K=2 on the whole family, K=2 (3 thorough) on selected timetables incl. two '
             'schedulers whose changes tie -- plus the shift schedule of examples/OperatingSchedule.py in a line with failures; '
             'non-trivial = a state change happened and an object was (un)registered during the run')
     level_text = ('Lock-step agreement with a timetable evaluated independently (repeated addition from the start time): '
@@ -346,7 +346,7 @@ class C18(Check):
                 if not S.timetable_well_posed(tt, cyc):
                     continue
                 for pr in (pre if th else pre[:2]):
-                    jobs.append(line_job(S.SCHED(tt, cyc, pr, K=1), ['schedule'], e2=2 if not th else 5, max_depth=800))
+                    jobs.append(line_job(S.SCHED(tt, cyc, pr, K=2), ['schedule'], e2=2 if not th else 5, max_depth=800))
         K = 3 if th else 2
         sel = [S.SCHED([(1, 'a'), (0.5, 'b')], True, [('o1', 'default')], K=K),
                S.SCHED([(1, 'a'), (0, 'b'), (2, 'a')], False, [('o1', 'override'), ('o2', 'default')], K=K),
